@@ -1230,8 +1230,16 @@ class Channel(ClosingContextManager):
         self.logger.log(level, "[chan " + self._name + "] " + msg, *args)
 
     def _event_pending(self):
-        self.event.clear()
-        self.event_ready = False
+        self.lock.acquire()
+        try:
+            self.event.clear()
+            self.event_ready = False
+            if self.closed:
+                # closed since the caller's "is it open" check: keep the
+                # wakeup _set_closed() already delivered
+                self.event.set()
+        finally:
+            self.lock.release()
 
     def _wait_for_event(self):
         self.event.wait()
